@@ -44,6 +44,9 @@ func (a *AlterConfigsResponse) decode(pd packetDecoder, version int16) error {
 		return err
 	}
 
+	if responseCount < 0 {
+		return errInvalidArrayLength
+	}
 	a.Resources = make([]*AlterConfigsResourceResponse, responseCount)
 
 	for i := range a.Resources {
